@@ -25,6 +25,7 @@ pub fn generate(stream: &str, seed: u64, n: usize, emit: &mut dyn FnMut(String))
 		"schema" | "schema-bad" | "names-table" => schema::generate(stream, seed, n, emit),
 		"graph" | "graph-wild" => schema::generate_graph(stream, seed, n, emit),
 		"reuse" => ser::generate_reuse(seed, n, emit),
+		"reuse-table" => ser::generate_reuse_table(emit),
 		"perm" => ser::generate_perm(seed, n, emit),
 		"c11" => de::generate_c11(seed, n, emit),
 		"skip" => de::generate_skip(seed, n, emit),
